@@ -44,3 +44,8 @@ def norm_stop(s, n):
 def first_token(text):
     """text.split(' ')[0] (uninterpreted on the symbolic side)."""
     return text.split(' ')[0]
+
+
+def matches(c, event, sender):
+    """record (event, sender_filter, func, kwargs) is called for an emit of `event` by `sender`"""
+    return c[0] == event and (c[1] is None or c[1] == sender)
